@@ -179,6 +179,13 @@ def Q.open_ (q : Q) : Q :=
   | h :: _ => if h.pos ≥ h.blocks.length then q2.trimHead else q2
   | [] => q2
 
+/-- **Crash and restart.** What a crash leaves is what is on disk: every segment's flushed
+blocks and its head offset (`advance` and `flush` sync the file before they return); what sat
+in a segment's write buffer is gone. The restart is `Open` on that. -/
+def Q.crash (q : Q) : Q :=
+  let disk := if q.segs.isEmpty then q.closedSegs else q.segs.map fun (s : Seg) => { s with buf := [] }
+  ({ q with segs := [], closedSegs := disk }).open_
+
 /-- **The abstraction**: pending blocks in FIFO order -/
 def Q.pending (q : Q) : List Block :=
   q.segs.flatMap fun s => s.blocks.drop s.pos ++ s.buf
